@@ -173,9 +173,10 @@ def serial_expectation_stream(chk, n):
     for c in cases:
         try:
             exp, order = sim_expectation(c)
-            # (ssm_serial used to refuse a lead time 0 -- `not all(lead_time_dict.values())` -> "lead_time cannot be None for any node"; repaired by
-            # fix 4a34017, so the SSM entry point is called for every case, zero lead times included)
-            an = ssm_expected_cost(c)
+            # ssm_serial refuses a lead time 0 (`not all(lead_time_dict.values())` -> "lead_time cannot be None for any node"; accepting it would be right
+            # for discrete demand but the module mishandles normal demand with a zero lead time, so the library keeps rejecting it: observation in DESIGN 11.8):
+            # the SSM entry point is then not called; the simulated expectation is still compared with the exact enumeration and with the Coq statement
+            an = ssm_expected_cost(c) if all(c['L']) else None
             impl.append((exp, order, an, None))
         except Exception as e:
             impl.append((None, None, None, e))
